@@ -92,6 +92,7 @@ def run(ctx):
     ctx.rule("R5.exclusion-passes-independent", "filter / where_available_for_current_thread iterate candidate_processors() and read no criterion that can change later; the thread-availability pass tests every candidate on every path", floor=3)
     ctx.rule("R6.total-grouping", "candidates_by_memory_region merges per region via entry().or_insert_with().push in a loop over all filtered candidates", floor=1)
 
+    ctx.rule("R9.source-restriction", "a builder made from a ProcessorSet only ever considers that set's processors: every ProcessorSet -> ProcessorSetBuilder conversion goes through to_builder / source_processors, and candidate_processors restricts by id membership over all processors (ids are not positions)", floor=4)
     ctx.rule("R7.pick-removes-picked", "a loop that revisits a candidate list and pushes one randomly picked element per visit removes exactly that element (same pick, by index) from the list", floor=1)
     ctx.rule("R8.prefer-same-largest-first", "prefer-same consumes regions from a list totally sorted by (clamped) candidate count, largest first, with no re-ordering after the sort", floor=1, shape_dependent=True)
     take = prog.one("processor_set_builder::ProcessorSetBuilder::take")
@@ -332,6 +333,7 @@ def run(ctx):
     ctx.ob("R6.total-grouping", "candidates_by_memory_region", ok, cbm.loc(),
            f"entry sites {len(ent)}, or_insert sites {len(oi)}, push sites {len(pu)}, replace-on-duplicate constructions: {repl or 'none'}")
     selection_order_rules(ctx, prog, take)
+    source_restriction_rules(ctx, prog)
 
 
 def _tests_len(b, blk, vroot):
@@ -427,3 +429,52 @@ def selection_order_rules(ctx, prog, take):
         ok = key_ok and largest_first and not late
         det.append(f"key = candidate count of the region: {key_ok}; consumed largest-first: {largest_first}; re-ordering after the sort: {late or 'none'}")
     ctx.ob("R8.prefer-same-largest-first", "take.prefer-same", ok, take.loc(pt["span"]), "; ".join(det))
+
+
+def source_restriction_rules(ctx, prog):
+    RID = "R9.source-restriction"
+    # (a) every function that turns a ProcessorSet into a ProcessorSetBuilder restricts the source
+    n = 0
+    for b in prog.bodies:
+        if b.is_closure or "::tests" in b.key or b.arg_count < 1:
+            continue
+        rty = b.local_ty(0)["s"]
+        if not rty.endswith("processor_set_builder::ProcessorSetBuilder"):
+            continue
+        a1 = b.local_ty(1)["s"]
+        if "processor_set::ProcessorSet" not in a1 or "Builder" in a1:
+            continue
+        n += 1
+        ctx.fn(b)
+        names = {callee_key(t["callee"]).split("::")[-1] for _bb, t in b.calls()}
+        ok = bool(names & {"to_builder", "source_processors"})
+        if ok and "source_processors" in names and "to_builder" not in names:
+            sp = [t for _bb, t in b.calls() if t["callee"].get("method") == "source_processors"][0]
+            sl = Slice(b).run(sp["args"][1])
+            ok = 1 in sl["args"] and any(f.endswith("ProcessorSet::processors") for f in sl["fields"])
+        ctx.ob(RID, f"{b.key.split('many_cpus_impl::')[-1]}({'&' if a1.startswith('&') else ''}ProcessorSet)", ok, b.loc(),
+               f"conversion ProcessorSet -> builder calls {sorted(names & {'to_builder', 'source_processors', 'with_internals', 'new'})}: the set's own processors become the source: {ok}")
+    if n == 0:
+        ctx.missing(RID, "ProcessorSet -> ProcessorSetBuilder conversions")
+    # (b) candidate_processors: membership by id over ALL processors, no positional lookup
+    cp = prog.one("processor_set_builder::ProcessorSetBuilder::candidate_processors")
+    if cp is None:
+        ctx.missing(RID, "ProcessorSetBuilder::candidate_processors")
+        return
+    ctx.fn(cp)
+    bodies = [cp] + prog.closures_of(cp)
+    positional = sorted({t["callee"].get("method") for bd in bodies for _bb, t in bd.calls()
+                         if t["callee"].get("method") in ("get", "get_unchecked", "index", "nth", "get_mut", "binary_search", "swap_remove", "remove")})
+    memb = False
+    for c in prog.closures_of(cp):
+        for _bb, t in c.calls():
+            if t["callee"].get("method") == "contains" and len(t["args"]) == 2:
+                s1 = Slice(c).run(t["args"][1])
+                if any(ct["callee"].get("method") == "id" for _k, _b, ct in s1["calls"]) and 2 in s1["args"]:
+                    memb = True
+    rsl = Slice(cp).run({"k": "copy", "place": {"l": 0, "p": []}})
+    from_all = any(k.endswith("all_processors") for k, _b, _t in rsl["calls"])
+    ok = memb and from_all and not positional
+    ctx.ob(RID, "candidate_processors.membership-over-all", ok, cp.loc(),
+           f"restricted by `source_ids.contains(&p.id())`: {memb}; result drawn from all_processors(): {from_all}; positional lookups: {positional or 'none'}" +
+           ("" if ok else " - a processor's id is not its position in the list (ids can be sparse)"))
